@@ -1,6 +1,6 @@
 (* C02 — property theorems.  Only statements, `exact`, and Print Assumptions. *)
 From Sdns Require Import Common.Base Gen.C02 C02.Model C02.Spec
-  C02.ModelNsec3 C02.Proofs_Order C02.Proofs_Nsec C02.Proofs_Spec C02.Proofs_NsecTop C02.Proofs_Nsec3 C02.ModelCut C02.Proofs_Cut C02.ModelAuth C02.ModelShared C02.Proofs_Shared C02.Proofs_Gen C02.Proofs_Mix C02.Proofs_Walk C02.Proofs_Zone.
+  C02.ModelNsec3 C02.Proofs_Order C02.Proofs_Nsec C02.Proofs_Spec C02.Proofs_NsecTop C02.Proofs_Nsec3 C02.ModelCut C02.Proofs_Cut C02.ModelAuth C02.ModelShared C02.Proofs_Shared C02.Proofs_Gen C02.Proofs_Mix C02.Proofs_Walk C02.Proofs_Zone C02.Proofs_Wild.
 Open Scope N_scope.
 
 (* ---- canonical order (RFC 4034 §6.1) is a total order *)
@@ -519,3 +519,22 @@ Theorem has_nsec3_optout_code_is_model :
   go_HasNSEC3OptOut fuel (map rr3_of rs) (present signer) = Some (has_optout3 (canon signer) (map snd rs)).
 Proof. exact gen_has_nsec3_optout_lemma. Qed.
 Print Assumptions has_nsec3_optout_code_is_model.
+
+(* ---- round 6: wildcard.go, VerifyWildcardAnswerForZoneWithWork (ModelAuth.wild_answer; driver wild).  Accepting a
+   wildcard-expanded RRSIG is accepting the denial "the owner's next closer name does not exist".  For the code as it
+   is since d3c4aec (the model reads the NSEC condition from the source on every run: Gen.C02.wild_cover_extra,
+   Proofs_Wild.gen_wild_ent_fixed): for every well-formed zone, every sub-multiset of its genuine NSEC chain in any
+   order as Authority section and every Answer — any number of RRSIGs, any owners, any Labels, any order — an
+   accepted Answer denies only next closer names that do not exist in the zone, neither as an owner nor as an empty
+   non-terminal.  Before d3c4aec the statement was false: wild_ent_witness keeps both variants
+   (corpus/C02/wild-ent-replay.json is the regression input) *)
+Theorem wild_answer_nsec_sound :
+  forall z nsecs signer tab,
+  zone_wf z -> (forall r, In r nsecs -> genuine z r) ->
+  forall sigs s0 s, wild_answer sigs nsecs [] signer tab s0 = (E_ok, s) ->
+  forall nc, In nc (wild_denied sigs) -> is_prefix (z_apex z) nc -> ~ exists_direct z nc.
+Proof. exact wild_answer_nsec_sound_lemma. Qed.
+Print Assumptions wild_answer_nsec_sound.
+Theorem wild_ent_repair_in_tree : wild_ent_fixed = true.
+Proof. exact gen_wild_ent_fixed. Qed.
+Print Assumptions wild_ent_repair_in_tree.
